@@ -23,30 +23,30 @@ type finding struct {
 // outcome is everything one scenario observed.
 type outcome struct {
 	sc               *scenario
-	Findings         []finding  `json:"findings,omitempty"`
-	Inconclusive     string     `json:"inconclusive,omitempty"`
-	IdleWaits        int        `json:"idle_waits"`
-	IdleWaitsMax     int        `json:"idle_waits_max_one_drive"`
-	Events           int        `json:"events_checked"`
-	Deliveries       int        `json:"deliveries_verified"`
-	Acked            int        `json:"uploads_acked"`
-	FailedUploads    int        `json:"uploads_failed"`
-	Incarnations     int        `json:"incarnations"`
-	Refused          int        `json:"startups_refused"`
-	RestartAt        []string   `json:"restart_at,omitempty"`
-	Faults           []string   `json:"faults_delivered,omitempty"`
-	StaleRows        int        `json:"stale_rows_tolerated"`
-	StaleUnexplained int        `json:"stale_rows_without_failed_delete"`
-	DrainRestart     bool       `json:"drain_restart,omitempty"`
-	Schedules        []string   `json:"schedules,omitempty"`
-	Stall            *stall     `json:"stall,omitempty"`
-	ProbeUploads     int        `json:"probe_uploads"`
-	TwinDeliveries   int        `json:"deliveries_verified_at_second_handler"`
-	Expected         int        `json:"blobs_expected_at_destination"`
-	PrePopulated     int        `json:"pre_populated_source_blobs"`
-	QueueReopens     int        `json:"queue_file_reopens"`
-	ValidationShards int        `json:"validation_shards_processed"`
-	MaxPending       int        `json:"max_rows_pending_at_a_start"`
+	Findings         []finding `json:"findings,omitempty"`
+	Inconclusive     string    `json:"inconclusive,omitempty"`
+	IdleWaits        int       `json:"idle_waits"`
+	IdleWaitsMax     int       `json:"idle_waits_max_one_drive"`
+	Events           int       `json:"events_checked"`
+	Deliveries       int       `json:"deliveries_verified"`
+	Acked            int       `json:"uploads_acked"`
+	FailedUploads    int       `json:"uploads_failed"`
+	Incarnations     int       `json:"incarnations"`
+	Refused          int       `json:"startups_refused"`
+	RestartAt        []string  `json:"restart_at,omitempty"`
+	Faults           []string  `json:"faults_delivered,omitempty"`
+	StaleRows        int       `json:"stale_rows_tolerated"`
+	StaleUnexplained int       `json:"stale_rows_without_failed_delete"`
+	DrainRestart     bool      `json:"drain_restart,omitempty"`
+	Schedules        []string  `json:"schedules,omitempty"`
+	Stall            *stall    `json:"stall,omitempty"`
+	ProbeUploads     int       `json:"probe_uploads"`
+	TwinDeliveries   int       `json:"deliveries_verified_at_second_handler"`
+	Expected         int       `json:"blobs_expected_at_destination"`
+	PrePopulated     int       `json:"pre_populated_source_blobs"`
+	QueueReopens     int       `json:"queue_file_reopens"`
+	ValidationShards int       `json:"validation_shards_processed"`
+	MaxPending       int       `json:"max_rows_pending_at_a_start"`
 	// PendingSizes: boundary sizes ("0", "max") of blobs that had a queue row and were not at the
 	// destination when an incarnation after the first one started
 	PendingSizes []string `json:"boundary_sizes_pending_at_a_restart,omitempty"`
@@ -56,11 +56,11 @@ type outcome struct {
 	LastIncFaults      []string `json:"faults_delivered_in_last_incarnation,omitempty"`
 	// ThroughReplica / DirectFromCond: acknowledged uploads that reached the source as a backend of
 	// the replica / straight from the cond router (scenario.Via)
-	ThroughReplica int `json:"uploads_through_replica"`
-	DirectFromCond int `json:"uploads_direct_from_cond"`
-	Log              []evt      `json:"log,omitempty"`
-	EffQueue         []effEvent `json:"effective_queue_mutations,omitempty"`
-	sigKind          string
+	ThroughReplica int        `json:"uploads_through_replica"`
+	DirectFromCond int        `json:"uploads_direct_from_cond"`
+	Log            []evt      `json:"log,omitempty"`
+	EffQueue       []effEvent `json:"effective_queue_mutations,omitempty"`
+	sigKind        string
 }
 
 func (o *outcome) add(sig, format string, args ...any) {
